@@ -112,14 +112,19 @@ fn construct(nodes: &[Node], variant: u64, case: usize) -> (WeakDom, Vec<Ref>) {
             }
         }
         1 => {
-            // every instance first inserted under a scratch holder (with some noise instances destroyed later),
-            // then moved to its place with transfer_within in an order that keeps sibling order
+            // every instance first inserted under a scratch holder, then moved to its place with transfer_within in
+            // an order that keeps sibling order.  Noise instances come and go on the way: one destroyed right after
+            // its neighbour was made, one sitting FIRST in every child list (the root's too) until the very end, so
+            // that each list loses its first entry while later siblings are present
+            let root_noise = dom.insert(root, InstanceBuilder::new("Part"));
             let holder = dom.insert(root, InstanceBuilder::new("Folder").with_name("scratch"));
             let mut order: Vec<usize> = (0..nodes.len()).collect();
             order.shuffle(&mut rng);
+            let mut first_noise = vec![root_noise];
             for k in order {
                 let noise = dom.insert(holder, InstanceBuilder::new("Part"));
                 refs[k] = dom.insert(holder, make(k, &mut rng));
+                first_noise.push(dom.insert(refs[k], InstanceBuilder::new("Part")));
                 dom.destroy(noise);
             }
             for k in 0..nodes.len() {
@@ -127,6 +132,9 @@ fn construct(nodes: &[Node], variant: u64, case: usize) -> (WeakDom, Vec<Ref>) {
                 dom.transfer_within(refs[k], p);
             }
             dom.destroy(holder);
+            for n in first_noise {
+                dom.destroy(n);
+            }
         }
         3 => {
             // built in place, then every top-level subtree is moved to another DOM and back again
